@@ -145,10 +145,32 @@ def signed_int_to_bytes(bytes):
 
 def define_blockshape_2d(bits_per_voxel, blockshape):
     assert blockshape[0] == 1
-    return define_blockshape_3d(bits_per_voxel, blockshape)
+    return define_blockshape_3d(bits_per_voxel, blockshape, is_2d=True)
 
 
-def define_blockshape_3d(bits_per_voxel, blockshape):
+def validate_compression_settings(bits_per_voxel, blockshape, is_2d=False):
+    """Refuse settings which cannot give a readable SGZ file: one disk block must hold a whole number
+    of ZFP compression units, and readers rely on every block dimension being a power of two."""
+    def is_power_of_two(n):
+        return isinstance(n, (int, np.integer)) and n >= 1 and (n & (n - 1)) == 0
+
+    if bits_per_voxel not in [0.25, 0.5, 1, 2, 4, 8, 16, 32]:
+        raise ValueError(f"bits_per_voxel={bits_per_voxel} is not one of 1/4, 1/2, 1, 2, 4, 8, 16, 32")
+    if not all(is_power_of_two(n) and n >= 4 for n in blockshape[1:]):
+        raise ValueError(f"blockshape={blockshape}: dimensions must be powers of two, at least 4")
+    if is_2d:
+        if blockshape[0] != 1:
+            raise ValueError(f"blockshape={blockshape}: first dimension must be 1 for 2D data")
+        if bits_per_voxel < 1:
+            # A 4x4 ZFP block of floats cannot be coded in fewer than 9 bits
+            raise ValueError(f"bits_per_voxel={bits_per_voxel}: 2D data needs at least 1 bit per voxel")
+    elif not (is_power_of_two(blockshape[0]) and blockshape[0] >= 4):
+        raise ValueError(f"blockshape={blockshape}: dimensions must be powers of two, at least 4")
+    if bits_per_voxel * blockshape[0] * blockshape[1] * blockshape[2] != DISK_BLOCK_BYTES * 8:
+        raise ValueError(f"bits_per_voxel={bits_per_voxel}, blockshape={blockshape} do not fill one {DISK_BLOCK_BYTES}-byte block")
+
+
+def define_blockshape_3d(bits_per_voxel, blockshape, is_2d=False):
     if sum([1 for n in list(blockshape) + [bits_per_voxel] if n == -1]) > 1:
         raise ValueError("Blockshape is underdefined")
 
@@ -171,6 +193,7 @@ def define_blockshape_3d(bits_per_voxel, blockshape):
                                                             (blockshape[0] * blockshape[1] * bits_per_voxel)))
         else:
             assert(bits_per_voxel * blockshape[0] * blockshape[1] * blockshape[2] == DISK_BLOCK_BYTES * 8)
+    validate_compression_settings(bits_per_voxel, blockshape, is_2d=is_2d)
     return bits_per_voxel, blockshape
 
 
